@@ -288,6 +288,8 @@ Section CompCorrect.
         * (* wait *)
           destruct (wait_flow va) as [[ws f]|]; cbn; rewrite <- ?app_assoc, ?app_nil_r; reflexivity.
         * cbn. rewrite <- ?app_assoc, ?app_nil_r. reflexivity.
+        * (* kill *)
+          destruct (kill_depth va); cbn; rewrite <- ?app_assoc, ?app_nil_r; reflexivity.
       + cbn [app bind run_code step]. unfold step_cmd, spec_cmd.
         cbn [length Nat.leb hd_error skipn init stk warn lines fl].
         destruct c; cbn; rewrite <- ?app_assoc, ?app_nil_r; reflexivity.
@@ -374,6 +376,7 @@ Proof.
         destruct (start_sub lb) as [ws n]; cbn. intro H; inversion H; reflexivity.
       * destruct (wait_flow va) as [[ws f]|]; cbn; intro H; inversion H; reflexivity.
       * cbn. intro H; inversion H; reflexivity.
+      * destruct (kill_depth va); cbn; intro H; inversion H; reflexivity.
     + cbn [app bind run_code step]. unfold step_cmd.
       cbn [length Nat.leb hd_error skipn stk warn lines fl].
       destruct c; cbn; intro H; inversion H; reflexivity.
@@ -392,6 +395,7 @@ Qed.
 Definition ends_thread (s : stmt) : bool :=
   match s with
   | SCmd CEnd _ => true
+  | SCmd CKill _ => true
   | SMethod _ MDelete _ => true
   | _ => false
   end.
@@ -497,4 +501,25 @@ Proof.
     repeat match goal with
            | |- context [match ?x with _ => _ end] => destruct x; cbn
            end; intro H; inversion H; cbn; lia.
+Qed.
+
+(* ------------------------------------------------------------------ deleted by a callee *)
+
+Lemma dead_thread_runs_nothing dbg p : run_from dbg false true p = map (fun _ => OSkip) p.
+Proof. induction p as [|s p IH]; [reflexivity|]. cbn [run_from negb map]. now rewrite IH. Qed.
+
+(* a thread that calls (and waits for) a thread which destroys it - 1, 2 or 3 calls deep, with
+   delete, remove or immediateremove, the call standing alone or inside an expression whose
+   operands are already on the stack - has ended: the statement is cut after the one line the
+   callee printed, no warning is raised, and no later statement of the program runs *)
+Theorem deleted_by_callee_ends_the_thread :
+  forall dbg d p,
+    kill_depth (Exact d) <> None ->
+    run dbg (SCmd CKill (Some (ELeaf d)) :: p) =
+    OCut (mkObs [] 1 FEnd) :: map (fun _ => OSkip) p.
+Proof.
+  intros dbg d p Hd. unfold run. cbn [run_from negb].
+  assert (E : run_stmt dbg (SCmd CKill (Some (ELeaf d))) = Some (mkObs [] 1 FEnd)).
+  { destruct d; cbn in Hd; try (exfalso; apply Hd; reflexivity); reflexivity. }
+  rewrite E. cbn [o_flow]. now rewrite dead_thread_runs_nothing.
 Qed.
